@@ -49,7 +49,10 @@ Record CInv (c : call) : Prop := {
   (* start_task: a status that was resolved without started() is exactly what task_done derives from the future *)
   CI_startfail : c_kind c = KStart -> c_started c = None -> c_status c <> CPending ->
                  c_fut c <> CPending /\
-                 c_status c = match c_fut c with CExc e => CExc e | CCancelled => CCancelled | _ => CExc e_nostart end
+                 c_status c = match c_fut c with CExc e => CExc e | CCancelled => CCancelled | _ => CExc e_nostart end;
+  (* while an awaitable call runs, a cancelled future means: its scope is cancelled, or the cancel is on its way *)
+  CI_cancelreach : c_phase c = PRunning -> c_kind c <> KSync -> c_fut c = CCancelled -> c_captured c = true ->
+                   c_scope_cancelled c = true \/ c_inflight c = true
 }.
 
 Ltac dmatch :=
@@ -83,7 +86,8 @@ Ltac cinv_start H :=
   let H7 := fresh "Hstarted" in let H8 := fresh "Hstatus" in let H9 := fresh "Hearly" in
   let H10 := fresh "Hscope" in let H11 := fresh "Hinfl" in let H12 := fresh "Hnoscope" in
   let H13 := fresh "Hbasefail" in let H14 := fresh "Hnotified" in let H15 := fresh "Hstartfail" in
-  destruct H as [H1 H2 H3 H4 H5 H6 H7 H8 H9 H10 H11 H12 H13 H14 H15].
+  let H16 := fresh "Hcreach" in
+  destruct H as [H1 H2 H3 H4 H5 H6 H7 H8 H9 H10 H11 H12 H13 H14 H15 H16].
 
 Lemma cinv_status_on_done c :
   CInv c -> landedp (c_phase c) = true -> c_fut c <> CPending -> CInv (status_on_done c).
@@ -276,14 +280,14 @@ Proof.
 Qed.
 
 Lemma cinv_entry c run : CInv c -> c_phase c = PLanded ->
-  RInv (with_entry c run) /\
+  (c_kind c = KSync -> RInv (with_entry c run)) /\
   RInv (if andb (is_cancelled (c_fut (with_entry c run))) (c_captured (with_entry c run))
         then with_scope_cancelled (with_entry c run) else with_entry c run).
 Proof.
   unfold RInv. intros H Hp. cinv_start H.
   destruct c as [kd ph fu stt ex cap sc inf bf inv out sta fcn asg ntf]; cbn in *. subst ph; cbn in *.
   split.
-  - constructor; cbn; cfield.
+  - intros ->. constructor; cbn; cfield.
   - destruct fu; cbn; try (constructor; cbn; cfield).
     destruct run; cbn; constructor; cbn; cfield.
 Qed.
@@ -292,8 +296,8 @@ Lemma cinv_first_step run gc c sv f c' :
   CInv c -> c_phase c = PLanded -> first_step run gc c sv f = Some c' -> CInv c'.
 Proof.
   intros H Hp. destruct (cinv_entry c run H Hp) as [R1 R2].
-  unfold first_step. destruct (c_kind c).
-  - destruct sv; [discriminate|]. destruct f as [|v|e| |]; try discriminate; intros [= <-].
+  unfold first_step. destruct (c_kind c) eqn:Ek.
+  - specialize (R1 eq_refl). destruct sv; [discriminate|]. destruct f as [|v|e| |]; try discriminate; intros [= <-].
     + apply rinv_finish_ret, R1.
     + apply rinv_finish_exc, R1.
     + apply rinv_finish_cancel_own, R1.
@@ -368,6 +372,58 @@ Proof.
   destruct c as [kd ph fu stt ex cap sc inf bf inv out sta fcn asg ntf]; cbn in *. subst inf.
   destruct (Hinfl eq_refl) as (-> & -> & ->).
   constructor; cbn; cfield.
+Qed.
+
+(* ---------- Future.cancel() in the loop thread ---------- *)
+Lemma future_cancel_loop_frame c c' r : future_cancel_loop c = (c', r) ->
+  c_kind c' = c_kind c /\ c_phase c' = c_phase c /\ c_execs c' = c_execs c /\ c_captured c' = c_captured c /\
+  c_inflight c' = c_inflight c /\ (c_scope_cancelled c = true -> c_scope_cancelled c' = true).
+Proof.
+  destruct c as [kd ph fu stt ex cap sc inf bf inv out sta fcn asg ntf].
+  unfold future_cancel_loop, status_on_done, callback_registered, is_pending; cbn.
+  destruct fu; cbn; try solve [intros [= <- <-]; cbn; auto 10].
+  destruct kd; [|destruct ph|destruct stt, ph]; destruct cap; cbn; intros [= <- <-]; cbn; auto 10.
+Qed.
+
+Lemma future_cancel_loop_cells c c' r : future_cancel_loop c = (c', r) ->
+  (c_fut c <> CPending -> c_fut c' = c_fut c) /\ (c_status c <> CPending -> c_status c' = c_status c).
+Proof.
+  destruct c as [kd ph fu stt ex cap sc inf bf inv out sta fcn asg ntf].
+  unfold future_cancel_loop, status_on_done, callback_registered, is_pending; cbn.
+  destruct fu; cbn; try solve [intros [= <- <-]; cbn; split; intros; congruence].
+  destruct kd; [|destruct ph|destruct stt, ph]; destruct cap; cbn; intros [= <- <-]; cbn; split; intros; congruence.
+Qed.
+
+Lemma future_cancel_loop_done c c' r : CInv c -> future_cancel_loop c = (c', r) -> donep (c_phase c) = true ->
+  c_fut c' = c_fut c /\ c_notified c' = c_notified c.
+Proof.
+  intros H E Hd. destruct (CI_closed _ H Hd) as (o & _ & Hok).
+  assert (Hnp : c_fut c <> CPending) by (destruct o; cbn in Hok; intuition congruence).
+  revert E. unfold future_cancel_loop. destruct (c_fut c) eqn:Ef; try congruence; intros [= <- <-]; cbn; auto.
+Qed.
+
+Lemma cinv_future_cancel_loop c c' r : CInv c -> handed_out c = true -> future_cancel_loop c = (c', r) -> CInv c'.
+Proof.
+  intros H Hh. pose proof (handed_out_landed c Hh) as Hl. cinv_start H.
+  destruct c as [kd ph fu stt ex cap sc inf bf inv out sta fcn asg ntf]; cbn in *.
+  unfold future_cancel_loop; cbn. destruct fu; cbn.
+  - assert (Hnd : donep ph = false).
+    { destruct (donep ph) eqn:Ed; [|reflexivity]. destruct (Hclosed eq_refl) as (o & _ & Hok).
+      destruct o; cbn in Hok; intuition discriminate. }
+    assert (sc = false) by (destruct sc; [destruct (Hscope eq_refl); discriminate|reflexivity]). subst sc.
+    assert (inf = false) by (destruct inf; [destruct (Hinfl eq_refl); discriminate|reflexivity]). subst inf.
+    unfold status_on_done, callback_registered; cbn.
+    destruct kd; cbn.
+    + destruct ph; cbn in *; try discriminate; intros [= <- <-]; constructor; cbn; cfield.
+    + destruct ph; cbn in *; try discriminate; destruct cap; cbn; intros [= <- <-]; constructor; cbn; cfield.
+    + unfold handed_out in Hh; cbn in Hh.
+      destruct stt; cbn in *; destruct ph; cbn in *; try discriminate; destruct cap; cbn; intros [= <- <-];
+        constructor; cbn; cfield.
+  - intros [= <- <-]. constructor; cbn; cfield.
+  - intros [= <- <-]. constructor; cbn; cfield.
+  - intros [= <- <-]. destruct ph; cbn in *; try discriminate; constructor; cbn; try cfield.
+    all: intros _; destruct (Hclosed eq_refl) as (o & Ho & Hok); exists o; split; [exact Ho|];
+      eapply cell_ok_mono, Hok.
 Qed.
 
 (* ---------- the global invariant ---------- *)
@@ -510,7 +566,7 @@ Ltac inv_fields I := let J := fresh "J" in pose proof I as J; destruct J; constr
 
 Lemma step_inv s o : Inv s -> Inv (fst (step s o)).
 Proof.
-  intros I. destruct o as [k kd|k|k w sv f|k|k|k|cr|exc| |]; cbn [step].
+  intros I. destruct o as [k kd|k|k w sv f|k|k|k|cr|exc| | |k]; cbn [step].
   - (* ThreadIssue *)
     destruct (c_phase (calls s k)) eqn:Ep; try exact I.
     destruct (running s); cbn [fst]; apply inv_set_call; auto;
@@ -654,6 +710,19 @@ Proof.
   - (* LoopEnd *)
     destruct (is_left (host s)) eqn:El; cbn; [|exact I]. destruct (loop_ended s) eqn:Ee; cbn; [exact I|].
     apply is_left_true in El. inv_fields I.
+  - (* FutureCancelLoop *)
+    destruct (handed_out (calls s k)) eqn:Eh; cbn [andb]; [|exact I].
+    destruct (loop_ended s) eqn:Ee; cbn [negb]; [exact I|].
+    destruct (future_cancel_loop (calls s k)) as [c' r] eqn:E. cbn [fst].
+    pose proof (cinv_future_cancel_loop _ _ _ (I_call s I k) Eh E) as Hc.
+    pose proof (future_cancel_loop_done _ _ _ (I_call s I k) E) as Hdn.
+    apply future_cancel_loop_frame in E. destruct E as (_ & Hph & _ & Hcap & _).
+    apply inv_set_call; auto.
+    + rewrite Hph. reflexivity.
+    + intros Hf He. rewrite Hcap. apply (I_cap s I Hf). rewrite <- Hph. exact He.
+    + rewrite Hph. intros E. apply handed_out_landed in Eh. rewrite E in Eh. discriminate.
+    + intros Hf Hd Hcn. rewrite Hph in Hd. destruct (Hdn Hd) as [E1 E2]. rewrite E2.
+      apply (I_ntf s I Hf); [exact Hd|congruence].
 Qed.
 
 Theorem reachable_inv f4 fc fn ops : Inv (final step (init f4 fc fn) ops).
@@ -681,14 +750,15 @@ Proof. intros (fn & ops & ->). destruct (final_flags ops (init f4 fc fn)) as (H1
 (* which call an op is about *)
 Definition op_target (o : op) : option cid :=
   match o with
-  | ThreadIssue k _ | ThreadLand k | TaskStep k _ _ _ | TaskReap k | FutureCancel k | CancelLand k => Some k
+  | ThreadIssue k _ | ThreadLand k | TaskStep k _ _ _ | TaskReap k | FutureCancel k | CancelLand k
+  | FutureCancelLoop k => Some k
   | Stop _ | HostExit _ | ResumeHost | LoopEnd => None
   end.
 
 (* an op about call k (or about the host) never touches the record of another call j *)
 Lemma step_other s o j : op_target o <> Some j -> calls (fst (step s o)) j = calls s j.
 Proof.
-  destruct o as [k kd|k|k w sv f|k|k|k|cr|exc| |]; cbn [op_target step]; intros Hne;
+  destruct o as [k kd|k|k w sv f|k|k|k|cr|exc| | |k]; cbn [op_target step]; intros Hne;
     try (assert (Hjk : j <> k) by congruence).
   - destruct (c_phase (calls s k)); try reflexivity. destruct (running s); cbn; now rewrite upd_other.
   - destruct (c_phase (calls s k)); try reflexivity.
@@ -706,6 +776,8 @@ Proof.
     + destruct (woken s); [|reflexivity]. destruct (is_nil (members s)); reflexivity.
     + destruct (f4_fixed s && negb (is_nil (members s))); reflexivity.
   - destruct (is_left (host s) && negb (loop_ended s)); reflexivity.
+  - destruct (handed_out (calls s k) && negb (loop_ended s)); [|reflexivity].
+    destruct (future_cancel_loop (calls s k)). cbn. now rewrite upd_other.
 Qed.
 
 Lemma option_eq_dec_target o k : {op_target o = Some k} + {op_target o <> Some k}.
@@ -743,7 +815,7 @@ Proof.
   intros R Hne. pose proof (reach_inv _ _ _ R) as I.
   destruct (option_eq_dec_target o k) as [Ht|Ht].
   2:{ exfalso. apply Hne. now rewrite step_other. }
-  revert Hne. destruct o as [k' kd|k'|k' w sv f|k'|k'|k'|cr|exc| |]; cbn [op_target] in Ht; try discriminate;
+  revert Hne. destruct o as [k' kd|k'|k' w sv f|k'|k'|k'|cr|exc| | |k']; cbn [op_target] in Ht; try discriminate;
     injection Ht as ->; cbn [step].
   - destruct (c_phase (calls s k)) eqn:Ep; cbn [fst]; try congruence.
     pose proof (CI_execs _ (I_call s I k)) as He. rewrite Ep in He. cbn in He.
@@ -762,6 +834,9 @@ Proof.
     cbn. rewrite upd_same. apply future_cancel_frame in E. destruct E as (_ & _ & He & _). congruence.
   - destruct (c_inflight (calls s k)); cbn [fst]; [|congruence].
     destruct (loop_ended s); cbn; [congruence|]. rewrite upd_same. cbn. congruence.
+  - destruct (handed_out (calls s k) && negb (loop_ended s)); cbn [fst]; [|congruence].
+    destruct (future_cancel_loop (calls s k)) as [c' r] eqn:E.
+    cbn. rewrite upd_same. apply future_cancel_loop_frame in E. destruct E as (_ & _ & He & _). congruence.
 Qed.
 
 (* ---------- 2. portal_future_single_assignment ---------- *)
@@ -877,7 +952,7 @@ Proof.
   intros R. pose proof (reach_inv _ _ _ R) as I.
   destruct (option_eq_dec_target o k) as [Ht|Ht].
   2:{ rewrite step_other by exact Ht. auto. }
-  destruct o as [k' kd|k'|k' w sv f|k'|k'|k'|cr|exc| |]; cbn [op_target] in Ht; try discriminate;
+  destruct o as [k' kd|k'|k' w sv f|k'|k'|k'|cr|exc| | |k']; cbn [op_target] in Ht; try discriminate;
     injection Ht as ->; cbn [step].
   - destruct (c_phase (calls s k)) eqn:Ep; cbn [fst]; auto.
     destruct (CI_early _ (I_call s I k)) as (E1 & E2 & _); [rewrite Ep; reflexivity|].
@@ -894,6 +969,9 @@ Proof.
   - destruct (handed_out (calls s k)); cbn [fst]; auto. destruct (future_cancel (calls s k)) as [c' r] eqn:E.
     cbn. rewrite upd_same. eapply future_cancel_cells, E.
   - destruct (c_inflight (calls s k)); cbn [fst]; auto. destruct (loop_ended s); cbn; auto. rewrite upd_same. cbn. auto.
+  - destruct (handed_out (calls s k) && negb (loop_ended s)); cbn [fst]; auto.
+    destruct (future_cancel_loop (calls s k)) as [c' r] eqn:E.
+    cbn. rewrite upd_same. eapply future_cancel_loop_cells, E.
 Qed.
 
 (* ---------- 3. portal_future_cancel_cancels_that_task_only ---------- *)
@@ -919,12 +997,16 @@ Qed.
 
 (* (1) frame: cancelling the future of call k, and the landing of the scope.cancel it marshals, change nothing
        but the record of call k: no other call, not the group scope, not the membership, not the host *)
-Theorem portal_future_cancel_frame s k o : o = FutureCancel k \/ o = CancelLand k ->
+Theorem portal_future_cancel_frame s k o : o = FutureCancel k \/ o = CancelLand k \/ o = FutureCancelLoop k ->
   let s' := fst (step s o) in
   (forall j, j <> k -> calls s' j = calls s j) /\ group_cancelled s' = group_cancelled s /\
   members s' = members s /\ host s' = host s /\ woken s' = woken s /\ running s' = running s.
 Proof.
-  intros [-> | ->]; cbn [step].
+  intros [-> | [-> | ->]]; cbn [step].
+  3:{ destruct (handed_out (calls s k) && negb (loop_ended s)); cbn; [|auto 10].
+      destruct (future_cancel_loop (calls s k)) as [c' r]. cbn.
+      refine (conj _ (conj eq_refl (conj eq_refl (conj eq_refl (conj eq_refl eq_refl))))).
+      intros j Hj. now rewrite upd_other. }
   - destruct (handed_out (calls s k)); cbn; [|auto 10]. destruct (future_cancel (calls s k)) as [c' r]. cbn.
     refine (conj _ (conj eq_refl (conj eq_refl (conj eq_refl (conj eq_refl eq_refl))))).
     intros j Hj. now rewrite upd_other.
@@ -936,7 +1018,7 @@ Qed.
 (* (2) a call's own scope is cancelled only because that call's own future is cancelled;
    (3) an interruption of call k is deliverable only if its own scope or the whole group is cancelled *)
 Theorem portal_future_cancel_cancels_that_task_only f4 fc s : reach f4 fc s ->
-  (forall k o, o = FutureCancel k \/ o = CancelLand k ->
+  (forall k o, o = FutureCancel k \/ o = CancelLand k \/ o = FutureCancelLoop k ->
      (forall j, j <> k -> calls (fst (step s o)) j = calls s j) /\
      group_cancelled (fst (step s o)) = group_cancelled s) /\
   (forall k, c_scope_cancelled (calls s k) = true -> c_fut (calls s k) = CCancelled) /\
@@ -983,7 +1065,7 @@ Proof.
   intros R Hi. pose proof (reach_inv _ _ _ R) as I. refine (conj _ (conj _ _)).
   - intros o Ho. destruct (option_eq_dec_target o k) as [Ht|Ht].
     2:{ now rewrite step_other. }
-    destruct o as [k' kd|k'|k' w sv f|k'|k'|k'|cr|exc| |]; cbn [op_target] in Ht; try discriminate;
+    destruct o as [k' kd|k'|k' w sv f|k'|k'|k'|cr|exc| | |k']; cbn [op_target] in Ht; try discriminate;
       injection Ht as ->; cbn [step].
     + destruct (c_phase (calls s k)) eqn:Ep; cbn [fst]; auto.
       destruct (CI_early _ (I_call s I k)) as (_ & _ & _ & E & _); [rewrite Ep; reflexivity|congruence].
@@ -999,6 +1081,9 @@ Proof.
     + destruct (handed_out (calls s k)); cbn [fst]; auto. destruct (future_cancel (calls s k)) as [c' r] eqn:E.
       cbn. rewrite upd_same. eapply future_cancel_flags; eauto.
     + congruence.
+    + destruct (handed_out (calls s k) && negb (loop_ended s)); cbn [fst]; auto.
+      destruct (future_cancel_loop (calls s k)) as [c' r] eqn:E.
+      cbn. rewrite upd_same. apply future_cancel_loop_frame in E. destruct E as (_ & _ & _ & _ & Ei & _). congruence.
   - intros He. cbn [step]. rewrite Hi, He. cbn. rewrite !upd_same. cbn. refine (conj eq_refl (conj eq_refl (conj eq_refl _))).
     intros Hp. rewrite Hp. cbn.
     unfold body_step, apply_started, finish_cancelled. cbn. reflexivity.
@@ -1150,11 +1235,12 @@ Proof.
   destruct (CI_early _ (I_call s I k)) as (Hf & _ & _ & Hi & _); [destruct Hp as [-> | [-> | ->]]; reflexivity|].
   refine (conj _ (conj He (conj Hm Hf))).
   destruct (option_eq_dec_target o k) as [Ht|Ht]; [|now apply step_other].
-  destruct o as [k' kd|k'|k' w sv f|k'|k'|k'|cr|exc| |]; cbn [op_target] in Ht; try discriminate;
+  destruct o as [k' kd|k'|k' w sv f|k'|k'|k'|cr|exc| | |k']; cbn [op_target] in Ht; try discriminate;
     injection Ht as ->; cbn [step].
   1-4: destruct Hp as [-> | [-> | ->]]; reflexivity.
   - unfold handed_out. destruct Hp as [-> | [-> | ->]]; reflexivity.
   - rewrite Hi. reflexivity.
+  - unfold handed_out. destruct Hp as [-> | [-> | ->]]; reflexivity.
 Qed.
 
 
@@ -1443,7 +1529,7 @@ Proof.
   assert (Hsame : o <> LoopEnd -> loop_ended (fst (step s o)) = true -> ended = true).
   { intros Hno Hl. destruct (L1 Hl) as [Hl'|Hl']; [auto|]. exfalso. apply Hno, Hl'. }
   destruct o; cbn [no_land_after] in Hn.
-  1, 3, 4, 5, 7, 8, 9: apply (Go ended); [apply Hsame; discriminate|exact Hn].
+  1, 3, 4, 5, 7, 8, 9, 11: apply (Go ended); [apply Hsame; discriminate|exact Hn].
   - destruct ended; [discriminate|]. apply (Go false); [apply Hsame; discriminate|exact Hn].
   - destruct ended; [discriminate|]. apply (Go false); [apply Hsame; discriminate|exact Hn].
   - apply (Go true); [reflexivity|exact Hn].
@@ -1557,3 +1643,55 @@ Example ex_falsy_exception_delivered :
   c_fut (calls s 3) = CExc e_falsy /\ c_status (calls s 3) = CResult 7%Z /\
   donep (c_phase (calls s 2)) = true /\ c_started (calls s 2) = None /\ c_kind (calls s 2) = KStart.
 Proof. vm_compute. repeat split. Qed.
+
+(* ====================================================================================================
+   A cancelled future always reaches its task, whichever thread cancelled it
+   ==================================================================================================== *)
+(* With repair 2158065 (fc_fixed): in every reachable state, while an awaitable call is running, a cancelled future
+   means that the call's scope IS cancelled (cancel made in the loop thread, or marshalled cancel already landed, or
+   future cancelled before the wrapper's first step) or that the marshalled scope.cancel is on its way (cancel made in
+   a foreign thread, not landed yet).  There is no state in which the future reports cancelled() and nothing will
+   ever tell the task. *)
+Theorem portal_cancelled_future_reaches_scope f4 s k : reach f4 true s ->
+  c_phase (calls s k) = PRunning -> c_kind (calls s k) <> KSync -> c_fut (calls s k) = CCancelled ->
+  c_scope_cancelled (calls s k) = true \/ c_inflight (calls s k) = true.
+Proof.
+  intros R Hp Hk Hf. pose proof (reach_inv _ _ _ R) as I. destruct (reach_flags _ _ _ R) as [_ Hfc].
+  apply (CI_cancelreach _ (I_call s I k) Hp Hk Hf). apply (I_cap s I Hfc). rewrite Hp. reflexivity.
+Qed.
+
+(* Future.cancel() executed in the event-loop thread (another call's callable, a done-callback of another portal
+   future, the host task): the future flips, the call's scope is cancelled IMMEDIATELY (nothing is marshalled), the
+   interruption of exactly this call is deliverable at once, and nothing else changes *)
+Theorem portal_loop_thread_cancel_cancels_scope f4 s k : reach f4 true s ->
+  c_phase (calls s k) = PRunning -> c_kind (calls s k) <> KSync -> c_fut (calls s k) = CPending ->
+  handed_out (calls s k) = true -> loop_ended s = false ->
+  let s1 := fst (step s (FutureCancelLoop k)) in
+  snd (step s (FutureCancelLoop k)) = RCancelTrue /\ c_fut (calls s1 k) = CCancelled /\
+  c_scope_cancelled (calls s1 k) = true /\ c_inflight (calls s1 k) = c_inflight (calls s k) /\
+  c_phase (calls s1 k) = PRunning /\
+  snd (step s1 (TaskStep k WInterrupt None FReraise)) = RStepped /\
+  (forall j, j <> k -> calls s1 j = calls s j) /\ group_cancelled s1 = group_cancelled s.
+Proof.
+  intros R Hp Hk Hf Hh He. pose proof (reach_inv _ _ _ R) as I. destruct (reach_flags _ _ _ R) as [_ Hfc].
+  assert (Hcap : c_captured (calls s k) = true) by (apply (I_cap s I Hfc); rewrite Hp; reflexivity).
+  destruct (portal_future_cancel_frame s k (FutureCancelLoop k)) as (F1 & F2 & _); [auto|].
+  cbv zeta in *. revert F1 F2. cbn [step]. rewrite Hh, He. cbn [andb negb].
+  destruct (calls s k) as [kd ph fu stt ex cap sc inf bf inv out sta fcn asg ntf] eqn:Ec; cbn in *. subst ph fu cap.
+  unfold future_cancel_loop, status_on_done, callback_registered, is_pending; cbn.
+  destruct kd; [congruence| |]; cbn.
+  - intros F1 F2. rewrite ?upd_same. cbn. rewrite ?upd_same. cbn. auto 10.
+  - destruct stt; cbn; intros F1 F2; rewrite ?upd_same; cbn; rewrite ?upd_same; cbn; auto 10.
+Qed.
+
+Example ex_loop_thread_cancel_hyp :
+  let s := final step (init true true true) ex_ops2 in
+  c_phase (calls s 0) = PRunning /\ c_kind (calls s 0) <> KSync /\ c_fut (calls s 0) = CPending /\
+  handed_out (calls s 0) = true /\ loop_ended s = false /\
+  let s1 := fst (step s (FutureCancelLoop 0)) in
+  c_scope_cancelled (calls s1 0) = true /\ c_inflight (calls s1 0) = false /\ c_scope_cancelled (calls s1 1) = false /\
+  snd (step s1 (TaskStep 1 WInterrupt None FReraise)) = RRejected /\
+  (* and a cancel made in a foreign thread: in flight until it lands *)
+  let s2 := fst (step s (FutureCancel 0)) in
+  c_fut (calls s2 0) = CCancelled /\ c_scope_cancelled (calls s2 0) = false /\ c_inflight (calls s2 0) = true.
+Proof. vm_compute. repeat split; discriminate. Qed.
